@@ -63,7 +63,7 @@ class Agent(object):
 
 CUR = None      # the Sched of the execution in progress (one per process)
 PRUNE = object()
-HANG_SECONDS = 120
+HANG_SECONDS = 300
 
 
 def cur():
@@ -386,7 +386,7 @@ class Sched(object):
                 a.sem.release()
         for a in self.agents:
             if a.thread is not None:
-                a.thread.join(10)
+                a.thread.join(120)
                 if a.thread.is_alive():
                     raise ToolError('agent %r did not unwind' % a)
 
